@@ -1113,4 +1113,6 @@ func c15GenCases(tier string, seed uint64, out *bufio.Writer) {
 	for i := 0; i < n/4; i++ {
 		fmt.Fprintln(out, "g"+c15GenHist(r, 4+r.intn(9), true)[1:])
 	}
+	// paged walks (compiled queries with skip / limit handed to IterateIds / IterateValidIds / QueryIds)
+	c15GenPagedCases(tier, r, out)
 }
